@@ -33,10 +33,22 @@ pub fn run(ctx: &mut Ctx) {
     let incoming_limit = if ctx.tape.choose(3) == 0 { ctx.tape.choose(17) as usize } else { 16 };
     let nops = 20 + ctx.tape.choose(if ctx.tier == crate::core::Tier::Quick { 260 } else { 300 });
 
-    let local_spec = ident::RecSpec { ident: local_ix, seq: 1, ip4: Some(([127, 0, 0, 1], 9000)), ip6: None, pad: 0 };
+    // the node listens on IPv4 (default), IPv6 only or both: the limits are about the IPv4 addresses in
+    // the stored records whatever the node itself listens on
+    let listen_mode = ctx.tape.choose(4).min(2);
+    let local_spec = match listen_mode {
+        1 => ident::RecSpec { ident: local_ix, seq: 1, ip4: None, ip6: Some((std::net::Ipv6Addr::LOCALHOST.octets(), 9000)), pad: 0 },
+        _ => ident::RecSpec { ident: local_ix, seq: 1, ip4: Some(([127, 0, 0, 1], 9000)), ip6: None, pad: 0 },
+    };
     let local_enr = ident::record(local_spec);
+    ctx.ev(format!("cfg listen={}", ["ipv4", "ipv6", "dual-stack"][listen_mode as usize]));
     let config = {
-        let mut b = ConfigBuilder::new(ListenConfig::default());
+        let listen = match listen_mode {
+            1 => ListenConfig::Ipv6 { ip: std::net::Ipv6Addr::LOCALHOST, port: 9000 },
+            2 => ListenConfig::DualStack { ipv4: std::net::Ipv4Addr::LOCALHOST, ipv4_port: 9000, ipv6: std::net::Ipv6Addr::LOCALHOST, ipv6_port: 9000 },
+            _ => ListenConfig::default(),
+        };
+        let mut b = ConfigBuilder::new(listen);
         b.ip_limit().incoming_bucket_limit(incoming_limit);
         b.build()
     };
